@@ -384,10 +384,16 @@ FromIdle(s) ==
                 \* (DEV_AnyRepeatRebasesSelect lives in the control model, see OutstationCtl)
                 \* write_solicited is used by the code here: the stored header is refreshed with the
                 \* current IIN, the body is whatever the buffer holds
+                \* DEV_IdleRepeatRefreshesIin: from idle the code sends the echo through write_solicited,
+                \* which ORs the current IIN into the stored header (and stores the result)
                 IF ~s0.last.resp.has THEN [s0 EXCEPT !.pc = "After1"]
+                ELSE IF "IdleRepeatRefreshesIin" \notin DEV
+                  THEN [RepeatSolicited(s0, s0.last.resp) EXCEPT !.pc = "After1"]
                 ELSE LET w == WriteSolicited(s0, s0.last.resp, FALSE)
+                         fired == w.resp.iin # s0.last.resp.iin
                      IN IF w.st.pc = "Dead" THEN w.st
-                        ELSE [w.st EXCEPT !.pc = "After1", !.last.resp = w.resp]
+                        ELSE [w.st EXCEPT !.pc = "After1", !.last.resp = w.resp,
+                                          !.devs = IF fired THEN @ \cup {"IdleRepeatRefreshesIin"} ELSE @]
             ELSE
                 LET h  == HandleNonRead(s0, q)
                     w  == WriteSolicited(h.st, h.resp, TRUE)
